@@ -284,7 +284,7 @@ fn check_indicator(d: &reg::IDesc, cfg: &dyn DC, cs: &[Candle], class: usize, se
 			poisoned = true;
 		}
 	}
-	r.cell(&format!("{}:{}", d.name, gen::CANDLE_CLASSES[class % gen::CANDLE_CLASSES.len()]));
+	r.cell(&format!("{}:{}", d.name, if class == 101 { "long-flat" } else { gen::CANDLE_CLASSES[class % gen::CANDLE_CLASSES.len()] }));
 	r.cell_n(&format!("{}:steps-with-window-inside-a-flat-stretch", d.name), after_flat);
 }
 
@@ -364,6 +364,22 @@ fn check_methods(ctx: &Ctx, r: &mut Report) {
 	}
 }
 
+/// class 101: volatile -> 10 000 exactly identical single-price candles -> volatile (a recursive average of the true range
+/// decays geometrically through the flat stretch, down into the subnormal range)
+fn long_flat(seed: u64) -> Vec<Candle> {
+	let mut cs = gen::candles(0, seed, 150, 14);
+	let p = cs.last().unwrap().close as f64;
+	for _ in 0..10_000 {
+		cs.push(gen::mk(p, p, p, p, 10.0));
+	}
+	let tail = gen::candles(0, seed ^ 0x7A11, 150, 14);
+	let scale = p / tail[0].open as f64;
+	for c in tail {
+		cs.push(gen::mk(c.open as f64 * scale, c.high as f64 * scale, c.low as f64 * scale, c.close as f64 * scale, c.volume as f64));
+	}
+	cs
+}
+
 pub fn run(ctx: &Ctx, r: &mut Report) {
 	if let Some(rp) = &ctx.replay {
 		let c = &rp["case"];
@@ -373,7 +389,7 @@ pub fn run(ctx: &Ctx, r: &mut Report) {
 				let class = c["stream_class"].as_u64().unwrap_or(0) as usize;
 				let seed = c["seed"].as_u64().unwrap_or(0);
 				let n = max_period(&c["config"]);
-				let cs = gen::candles(class, seed, c["len"].as_u64().unwrap_or(600) as usize, n.min(60));
+				let cs = if class == 101 { long_flat(seed) } else { gen::candles(class, seed, c["len"].as_u64().unwrap_or(600) as usize, n.min(60)) };
 				check_indicator(&d, cfg.as_ref(), &cs, class, seed, r);
 			}
 		}
@@ -389,6 +405,12 @@ pub fn run(ctx: &Ctx, r: &mut Report) {
 			let cfgv = cfg.ser().unwrap_or(Value::Null);
 			let n = max_period(&cfgv);
 			let classes: &[usize] = if is_watched { &[1, 2, 0, 3, 7] } else { &[1, 2] };
+			k += 1;
+			if ctx.mine(k) && cfgs.iter().position(|c| std::ptr::eq(c.as_ref(), cfg.as_ref())).map_or(false, |i| i < 8) {
+				let seed = ctx.seed ^ k << 9;
+				check_indicator(&d, cfg.as_ref(), &long_flat(seed), 101, seed, r);
+				r.cell("stream:10000-candle-flat-stretch");
+			}
 			for &class in classes {
 				let reps = if is_watched { ctx.pick(6, 10) } else { 2 };
 				for rep in 0..reps {
